@@ -410,17 +410,27 @@ structure FDec where
 
 abbrev Slots := List (Option Val)
 
-/-- one field action: tag check, `decode_fn`, the `unknown_var_err` arm.  `some v`: the slot
-    becomes `Some(v)`; `none`: the unknown variant was skipped, the slot keeps its content. -/
-def action (fd : FDec) : Dec (Option Val) := do
-  tagCheck fd.a.tag
-  fun bs =>
-    match fd.dec bs with
-    | .ok v r => .ok (some v) r
-    | .err e r =>
-        if e == .variant && fd.swallow then (do Dec.skip; pure (none : Option Val) : Dec (Option Val)) r
-        else .err e r
-    | .panic => .panic
+/-- has the F5 repair (docs/F5-candidate.diff: remember the position where the field's item
+    starts and skip the *whole* item on an unknown variant) been applied to /repo?  The model
+    mirrors the code as it is; flip this constant together with the `fix:` commit. -/
+def f5Fixed : Bool := false
+
+/-- `match decode_fn(d, ctx) { Ok(v) => slot = Some(v), unknown_var_err, Err(e) => return Err(e) }`:
+    `some v`: the slot becomes `Some(v)`; `none`: the unknown variant was skipped, the slot
+    keeps its content.  `bs0` = the input at the start of the action (`__p779` of the repair);
+    the code as it is calls `skip()` from wherever the failed decode stopped. -/
+def catchVariant (fd : FDec) (bs0 : Bytes) : Dec (Option Val) := fun bs =>
+  match fd.dec bs with
+  | .ok v r => .ok (some v) r
+  | .err e r =>
+      if e == .variant && fd.swallow then
+        (do Dec.skip; pure (none : Option Val) : Dec (Option Val)) (if f5Fixed then bs0 else r)
+      else .err e r
+  | .panic => .panic
+
+/-- one field action: tag check, then `decode_fn` with the `unknown_var_err` arm. -/
+def action (fd : FDec) : Dec (Option Val) := fun bs0 =>
+  (do tagCheck fd.a.tag; catchVariant fd bs0 : Dec (Option Val)) bs0
 
 /-- `match i { #(#indices => #actions)* _ => __d777.skip()? }` -/
 def runAt : List FDec → Slots → Nat → Dec Slots
@@ -489,14 +499,17 @@ def statements (enc : Encoding) (fds : List FDec) : Dec Slots := do
     take `Default::default()`.  (Named structs evaluate the fields in index order and tuple
     structs in declaration order; the only observable difference is *which* missing index the
     error names, which the model's error class does not carry.) -/
+def slotValue (fd : FDec) (s : Option Val) : Dec Val :=
+  if fd.a.skip then pure fd.dflt
+  else match s with
+    | some x => pure x
+    | none => match fd.nilV with
+      | some z => pure z
+      | none => Dec.fail .missing
+
 def resolve : List FDec → Slots → Dec (List Val)
   | fd :: fds, s :: ss => do
-    let v ← (if fd.a.skip then pure fd.dflt
-             else match s with
-               | some x => pure x
-               | none => match fd.nilV with
-                 | some z => pure z
-                 | none => Dec.fail .missing : Dec Val)
+    let v ← slotValue fd s
     let vs ← resolve fds ss
     pure (v :: vs)
   | _, _ => pure []
